@@ -1,0 +1,21 @@
+//go:build verif
+
+package ociclient
+
+import "cuelabs.dev/go/oci/ociregistry/internal/ocirequest"
+
+// VerifConstructOK reports whether ocirequest.Request.Construct accepts a request
+// with the given fields, that is whether newRequest would send it.
+// It exists for the verification harness only (build tag verif).
+func VerifConstructOK(kind int, repo, digest, tag, fromRepo string, listN int, listLast string) bool {
+	_, _, err := (&ocirequest.Request{
+		Kind:     ocirequest.Kind(kind),
+		Repo:     repo,
+		Digest:   digest,
+		Tag:      tag,
+		FromRepo: fromRepo,
+		ListN:    listN,
+		ListLast: listLast,
+	}).Construct()
+	return err == nil
+}
